@@ -152,6 +152,7 @@ structure St2 where
   newRecv : Option (Nat × Nat × Nat) := none     -- (tid, new receiver handle, objects still to bind: 2 = closed flag, 1 = cell)
   futs : List FutInfo2 := []
   rasync : List (Nat × Bool) := []               -- receiver handle ↦ async?
+  wbase : List (String × Nat) := []              -- future name ↦ waker invocations at its last `poll` call
   mutexTail : List Nat := []                     -- threads inside the wake_next tail of a HybridMutex unlock
   async0 : Bool := false
 
@@ -562,7 +563,8 @@ def stepR2 (st : St2) (t : Nat) (tok : String) : Except String (St2 × List Stri
           match st.futs.find? (fun i => i.name == f) with
           | some fi =>
             if fi.recv then
-              if tok == s!"n:{st.s.wakes fi.id}" then .ok (st, ["wakes"]) else .error s!"model=n:{st.s.wakes fi.id}"
+              let base := ((st.wbase.find? (fun p => p.1 == f)).map (·.2)).getD 0
+              if tok == s!"n:{st.s.wakes fi.id - base}" then .ok (st, ["wakes"]) else .error s!"model=n:{st.s.wakes fi.id - base}"
             else .ok (st, [])
           | none => .ok (st, [])
         | _ => .ok (st, [])
@@ -602,7 +604,15 @@ def step (st : St2) (op _res : List String) : Except String (St2 × List String)
     | none => .error "bad-line"
   | "C" :: tid :: ws =>
     match tid.toNat? with
-    | some t => .ok ({ st with pending := (t, ws) :: st.pending.filter (fun p => p.1 != t) }, [])
+    | some t =>
+      let st :=
+        match ws with
+        | ["poll", f] =>
+          match st.futs.find? (fun (i : FutInfo2) => i.name == f && i.live) with
+          | some fi => { st with wbase := (f, st.s.wakes fi.id) :: st.wbase.filter (fun p => p.1 != f) }
+          | none => st
+        | _ => st
+      .ok ({ st with pending := (t, ws) :: st.pending.filter (fun p => p.1 != t) }, [])
     | none => .error "bad-line"
   | ["R", tid, tok] =>
     match tid.toNat? with
